@@ -324,6 +324,67 @@ def corpus_sessions():
     return out
 
 
+def scenario(rng, st):
+    """inputs whose meaning depends on compiler state kept across inputs (what a script keeps within one module)"""
+    st["n"] += 3
+    n = st["n"]
+    k = rng.choice(["future-annotations", "nonlocal-global", "both"])
+    out = []
+    if k in ("future-annotations", "both"):
+        out += [dict(lines=["(import __future__ [annotations])"], kind="future-import", expect=("none",)),
+                dict(lines=["(defn area%d [#^ UndefinedShape%d s]" % (n, n), "  %d)" % (1000 + n)], kind="annotated-defn",
+                     expect=("none",)),
+                dict(lines=["(area%d 0)" % n], kind="value", expect=("value", 1000 + n))]
+    if k in ("nonlocal-global", "both"):
+        out += [dict(lines=["(setv counter%d %d)" % (n, 2000 + n)], kind="none", expect=("none",)),
+                dict(lines=["(defn bump%d [by]" % n, "  (nonlocal counter%d)" % n,
+                            "  (setv counter%d (+ counter%d by))" % (n, n), "  counter%d)" % n],
+                     kind="nonlocal-defn", expect=("none",)),
+                dict(lines=["(bump%d 7)" % n], kind="value", expect=("value", 2007 + n))]
+    return out
+
+
+def script_globals(history):
+    """run the inputs of a session as ONE script (a module compiled at once) and return its int-valued globals"""
+    import types
+    import hy
+    from hy.compiler import hy_compile
+    _repl_counter[0] += 1
+    name = "__c40_script_%d__" % _repl_counter[0]
+    m = types.ModuleType(name)
+    sys.modules[name] = m
+    try:
+        code = compile(hy_compile(hy.read_many("\n".join(history)), m), "<c40-script>", "exec")
+        with contextlib.redirect_stdout(io.StringIO()), contextlib.redirect_stderr(io.StringIO()):
+            exec(code, m.__dict__)
+    finally:
+        sys.modules.pop(name, None)
+    return {k: v for k, v in m.__dict__.items() if isinstance(v, int) and not isinstance(v, bool) and not k.startswith("_")}
+
+
+def scenario_order(steps):
+    """definitions before uses: future import, defn area, (area), setv counter, defn bump, (bump)"""
+    rank = {"future-import": 0, "annotated-defn": 1, "nonlocal-defn": 4}
+
+    def key(i):
+        l0 = i["lines"][0]
+        if i["kind"] in rank:
+            return rank[i["kind"]]
+        return 2 if l0.startswith("(area") else 3 if l0.startswith("(setv counter") else 5
+    return sorted(steps, key=key)
+
+
+def weave(rng, ordered, others):
+    out = list(others)
+    pos = 0
+    for step in ordered:
+        # a script accepts __future__ imports only at its beginning; keep the comparison meaningful
+        pos = 0 if step["kind"] == "future-import" else rng.randint(pos, len(out))
+        out.insert(pos, step)
+        pos += 1
+    return out
+
+
 def show(xs):
     """values of a session as text; objects whose repr may raise are shown by class"""
     return repr([x if isinstance(x, (int, str, type(None))) else "<%s>" % type(x).__name__ for x in xs])
@@ -358,8 +419,12 @@ def oracle(chk, n_sessions):
                 chk.count("corpus-session")
             else:
                 inputs = [gen_input(rng, st) for _ in range(rng.randint(1, 7))]
+                if rng.random() < 0.35:
+                    # weave a scenario into the session, keeping definitions before uses
+                    inputs = weave(rng, scenario(rng, st), inputs)
             results = []       # results of evaluated inputs, latest first
             history = []
+            session_failed = False
             for inp in inputs:
                 buf = []
                 before_slots = [L[M["*1"]], L[M["*2"]], L[M["*3"]]]
@@ -443,11 +508,25 @@ def oracle(chk, n_sessions):
                 if not all(any(y == x for y in it) for x in seen):
                     chk.fail("slots-are-not-recent-results-in-order", desc, show(slots), show(results[:4]), how)
                 history.append("\n".join(inp["lines"]))
+                session_failed = session_failed or exp[0] == "error"
                 chk.count("input:" + kind)
                 chk.count("lines:%d" % len(inp["lines"]))
                 chk.case((tuple(history[-3:]),), nontrivial=(exp[0] == "error" or len(inp["lines"]) > 1 or len(history) > 1),
                          sample={"session": history[-3:], "slots": [x if isinstance(x, (int, type(None))) else type(x).__name__ for x in slots]}
                          if (s * 13 + len(history)) % 211 == 5 else None)
+            if not session_failed and history:
+                # "like the same forms evaluated in order": the same inputs as one script must leave the same globals
+                try:
+                    want = script_globals(history)
+                    got = {k: L.get(k, "<unbound>") for k in want}
+                    if got != want:
+                        chk.fail("session-differs-from-script", {"inputs": history}, got, want,
+                                 "run the inputs line by line with hy.REPL().push and as one file with hy")
+                    chk.count("script-equivalence-sessions")
+                except Exception as ex:  # noqa: BLE001  the script fails although every REPL input succeeded
+                    chk.fail("session-differs-from-script", {"inputs": history}, "every input succeeded at the REPL",
+                             "script run raises %s: %s" % (type(ex).__name__, str(ex)[:100]),
+                             "run the inputs as one file with hy")
     finally:
         sys.excepthook = saved
 
